@@ -11,14 +11,15 @@
 
 using namespace sim;
 
-enum { OP_ALLOC = 0, OP_FREE, OP_DEALLOC, OP_REALLOC, OP_REALLOC_NULL, OP_REALLOC_ZERO, OP_FREE_NULL, OP_GETSIZE, OP_VERIFY, OP_GIVE, OP_TAKE, OP_PAGES, OP_CHURN, OP_BULK, OP_N };
-static const char *op_names[OP_N] = {"alloc", "free", "dealloc", "realloc", "realloc_null", "realloc_zero", "free_null", "get_size", "verify", "give", "take", "used_pages", "churn", "bulk"};
+enum { OP_ALLOC = 0, OP_FREE, OP_DEALLOC, OP_REALLOC, OP_REALLOC_NULL, OP_REALLOC_ZERO, OP_FREE_NULL, OP_GETSIZE, OP_VERIFY, OP_GIVE, OP_TAKE, OP_PAGES, OP_CHURN, OP_BULK, OP_MASS, OP_N };
+static const char *op_names[OP_N] = {"alloc", "free", "dealloc", "realloc", "realloc_null", "realloc_zero", "free_null", "get_size", "verify", "give", "take", "used_pages", "churn", "bulk", "mass"};
 static const int NH = 48;      // handle slots addressed by plan ops
 static const uint32_t NORETRY = 1u << 31; // flag in Op::mapfail: a failed request is not retried at once (failure bursts)
 static const int NBULK = 6144; // extra slots used by the bulk op (fills whole slabs)
+static const int NMASS = 72000; // further slots used by the mass op only (more than 65535 live blocks in ONE slab; needs slabs of 512 KiB and more)
 
 static int P_maps, P_unmaps, P_slab_first, P_slab_additional, P_large, P_realloc_inplace, P_realloc_moved, P_realloc_map, P_xfree, P_handover, P_take_fail, P_contended_construct, P_remote_free_into_head,
-	P_relink_full, P_mapfail_injected, P_mapfail_while_other_holds, P_skipped, P_poison_redundant, P_unpoison_redundant, P_churn_iters, P_arena_exhausted, P_lock_contention, P_recovered, P_pages_sampled, P_unaligned_slack, P_bulk_blocks, P_slab_filled, P_long_churn, P_granule_runs, P_burst_fail, P_multi_pages_checked, P_reuse_checked, P_huge_maps, P_huge_blocks, P_huge_realloc_grow, P_huge_realloc_clamped, P_huge_lazy;
+	P_relink_full, P_mapfail_injected, P_mapfail_while_other_holds, P_skipped, P_poison_redundant, P_unpoison_redundant, P_churn_iters, P_arena_exhausted, P_lock_contention, P_recovered, P_pages_sampled, P_unaligned_slack, P_bulk_blocks, P_slab_filled, P_long_churn, P_granule_runs, P_burst_fail, P_multi_pages_checked, P_reuse_checked, P_huge_maps, P_huge_blocks, P_huge_realloc_grow, P_huge_realloc_clamped, P_huge_lazy, P_subpage_base, P_mass, P_mass_blocks;
 
 struct Region { uint64_t base, len; int kind; /*0 slab,1 large*/ int64_t pages; int by_task, by_op; uint64_t cls; bool counted; int64_t live = 0; int last_free_task = 0; uint64_t last_free_step = 0; };
 struct Block { char *ptr = nullptr; size_t req = 0, reported = 0; uint64_t pat = 0; int owner = 0; int alloc_task = 0; bool live = false, offered = false, inflight = false, busy = false; VC chan; };
@@ -42,7 +43,8 @@ struct SlabEngine : Engine {
 	uint8_t *pshadow = nullptr; // 1 = poisoned
 	std::vector<Region> regions;       // mapped now, sorted by base
 	std::vector<Region> unmapped_hist; // for double-unmap diagnosis
-	std::vector<Block> blk = std::vector<Block>(NH + NBULK);
+	std::vector<Block> blk = std::vector<Block>(NH + NBULK + NMASS);
+	int slot_hi = NH + NBULK; // one past the highest slot used in this run (the mass slots are reset and scanned only when used)
 	std::map<uint64_t, int> live_by_addr; // offset of ptr -> handle
 	uint64_t policy_base = 0, policy_top = 0;
 	bool tail_ok = false, tail_dirty = false; uint64_t tail_top = 0;
@@ -73,7 +75,7 @@ struct SlabEngine : Engine {
 		P_mapfail_while_other_holds = probe_id("map_failure_while_other_task_holds_a_pool_lock"); P_skipped = probe_id("ops_skipped_precondition"); P_poison_redundant = probe_id("kasan_strict:poison_of_poisoned_byte");
 		P_unpoison_redundant = probe_id("kasan_strict:unpoison_of_unpoisoned_byte"); P_churn_iters = probe_id("churn_iterations"); P_arena_exhausted = probe_id("arena_exhausted"); P_lock_contention = probe_id("alloc_or_free_overlapping_another_task's");
 		P_recovered = probe_id("retry_after_map_failure_succeeded"); P_pages_sampled = probe_id("used_pages_sampled"); P_unaligned_slack = probe_id("unaligned_map_nonzero_residue"); P_bulk_blocks = probe_id("bulk_blocks_allocated"); P_slab_filled = probe_id("slab_filled_completely(second_slab_of_class_mapped_in_bulk)"); P_long_churn = probe_id("long_churn_over_65536_allocations"); P_granule_runs = probe_id("runs_with_8_byte_granule_poison_shadow"); P_burst_fail = probe_id("map_failure_inside_a_burst_of_consecutive_failures"); P_multi_pages_checked = probe_id("used_pages_checked_against_measured_slab_sizes_at_end"); P_reuse_checked = probe_id("end_of_run_reuse_test(all_slab_capacity_refilled_without_map)");
-		P_huge_maps = probe_id("huge:map_of_1GiB_or_more(reserved_address_space)"); P_huge_blocks = probe_id("huge:block_of_2^31_bytes_or_more_live"); P_huge_realloc_grow = probe_id("huge:realloc_grew_a_block_to_2^31_bytes_or_more"); P_huge_realloc_clamped = probe_id("huge:realloc_of_a_huge_block_clamped_to_64_bytes"); P_huge_lazy = probe_id("huge:page_committed_on_first_touch_by_the_pool");
+		P_huge_maps = probe_id("huge:map_of_1GiB_or_more(reserved_address_space)"); P_huge_blocks = probe_id("huge:block_of_2^31_bytes_or_more_live"); P_huge_realloc_grow = probe_id("huge:realloc_grew_a_block_to_2^31_bytes_or_more"); P_huge_realloc_clamped = probe_id("huge:realloc_of_a_huge_block_clamped_to_64_bytes"); P_huge_lazy = probe_id("huge:page_committed_on_first_touch_by_the_pool"); P_subpage_base = probe_id("unaligned_map_returned_a_base_that_is_not_page_aligned"); P_mass = probe_id("mass_op:more_than_65535_blocks_live_in_one_slab"); P_mass_blocks = probe_id("mass_op:blocks_allocated");
 	}
 	const char *name() override { return "simslab"; }
 	const char *op_name(int k) override { return k >= 0 && k < OP_N ? op_names[k] : "?"; }
@@ -225,6 +227,16 @@ struct SlabEngine : Engine {
 			}
 			hbase += nh;
 		}
+		// a slab that can hold more than 65535 objects of the smallest class gets, now and then, more than 65535 of them live at once
+		// (a per-slab count kept in 16 bits is the mistake this is after); one such op costs ~10^7 steps, so it is rare
+		if (p.ntasks == 1 && P.slabsize / 8 > 66000 && prof != "C04") {
+			Rng mr; mr.seed(p.seed ^ 0x4d415353ull);
+			if (mr.chance(1, tier ? 6 : 10)) {
+				Op o; o.task = 1; o.id = next_id[1]++; o.kind = OP_MASS; o.a[0] = 0; o.a[1] = 8 - (int64_t)mr.below(8); o.a[2] = 65537 + (int64_t)mr.below(NMASS - 65537); o.a[3] = (int64_t)mr.below(3);
+				p.ops.insert(p.ops.begin() + (long)mr.below(p.ops.size() + 1), o);
+				p.knobs["cap1"] = 60000000;
+			}
+		}
 		{ // requests of 2^31 bytes and more (C02/C03: all sizes), drawn from a separate stream so that the other plans of a seed are unchanged
 			Rng hr; hr.seed(p.seed ^ 0x48554745ull);
 			if (hr.chance(1, prof == "C05" ? 25 : 10)) {
@@ -336,6 +348,8 @@ struct SlabEngine : Engine {
 		if (!align && c.place) {
 			uint64_t h = splitmix(c.place, (uint64_t)j);
 			switch (h & 3) { case 0: want_res = 0; break; case 1: want_res = pg; break; case 2: want_res = ((h >> 8) % (pi.sb_size / pg)) * pg; break; default: want_res = pi.sb_size - pg; break; }
+			// an unaligned map() owes the pool no alignment at all, not even to pages (a bump or boot-time arena): 64-byte granularity sometimes
+			if (((h >> 24) & 3) == 0) { want_res += 64 * (1 + (h >> 32) % (pg / 64 - 1)); probe(P_subpage_base); }
 		}
 		size_t a = align ? align : pg;
 		if (len >= HUGE_MIN) {
@@ -532,7 +546,8 @@ struct SlabEngine : Engine {
 			tail_top = arena_size + (1 << 20); tail_unpoisoned.clear(); tail_faults = 0;
 		}
 		regions.clear(); unmapped_hist.clear(); live_by_addr.clear(); map_sites.clear();
-		for (auto &b : blk) b = Block();
+		for (int i = 0; i < slot_hi; i++) blk[i] = Block();
+		slot_hi = NH + NBULK;
 		for (auto &c : cur) c = Cur();
 		live_cls.clear(); peak_cls.clear(); slabs_cls.clear(); total_maps = 0; fair_phase_retry = false;
 		pool = obj_alloc(api->pool_size(pc), 64);
@@ -629,7 +644,7 @@ struct SlabEngine : Engine {
 		size_t w = written_size[h];
 		if (w <= 192) rd(0, w); else { rd(0, 64); rd(w / 2 - 16, 32); rd(w - 64, 64); }
 	}
-	std::vector<size_t> written_size = std::vector<size_t>(NH + NBULK);
+	std::vector<size_t> written_size = std::vector<size_t>(NH + NBULK + NMASS);
 
 	uint64_t cls_of(size_t reported) { return reported <= max_small ? reported : 0; }
 
@@ -780,6 +795,7 @@ struct SlabEngine : Engine {
 			bool injected = c.failed_injected;
 			if (injected) violation("mapfail_not_null", "%s(%zu) returned +0x%llx although the map call it needed returned 0", what, n, (unsigned long long)off(p));
 		}
+		if (h >= slot_hi) slot_hi = h + 1;
 		b.ptr = p; b.req = n; b.pat = fill_rng().next();
 		check_new_block(me, h, what);
 		account_maps(me, op, h, false);
@@ -999,6 +1015,22 @@ struct SlabEngine : Engine {
 				for (size_t i = keep; i < got.size(); i++) if (blk[got[i]].live) rel(got[i], 0);
 			}
 			break; }
+		case OP_MASS: {
+			if (!single) { probe(P_skipped); return; }
+			size_t n = (size_t)op.a[1]; int64_t cnt = std::min<int64_t>(op.a[2], NMASS);
+			int lo = NH + NBULK; int64_t got = 0;
+			for (int64_t i = 0; i < cnt; i++) {
+				if (blk[lo + i].live) break;
+				Op a = op; a.kind = OP_ALLOC;
+				if (!do_alloc(me, a, lo + (int)i, n, false)) break;
+				got++; probe(P_mass_blocks); progress();
+			}
+			if (got > 65535) { Region *r0 = find_region(off(blk[lo].ptr)), *r1 = find_region(off(blk[lo + got - 1].ptr)); if (r0 && r0 == r1) probe(P_mass); }
+			auto rel = [&](int64_t i) { Op a = op; a.mapfail = 0; do_free(me, a, lo + (int)i, (int)(i & 1), blk[lo + i].req); progress(); };
+			if (op.a[3] == 0) for (int64_t i = 0; i < got; i++) rel(i);
+			else if (op.a[3] == 1) for (int64_t i = got; i-- > 0;) rel(i);
+			else { for (int64_t i = 0; i < got; i += 2) rel(i); for (int64_t i = 1; i < got; i += 2) rel(i); }
+			break; }
 		case OP_CHURN: {
 			if (!single || !faultfree) { probe(P_skipped); return; }
 			// constant live count alloc/free cycles in one class must not map anything new after warm-up
@@ -1028,7 +1060,7 @@ struct SlabEngine : Engine {
 	void finish() override {
 		// quiescent: every block still live must be intact and unpoisoned; then free everything
 		int me = 0;
-		for (int h = 0; h < NH + NBULK; h++) if (blk[h].live) {
+		for (int h = 0; h < slot_hi; h++) if (blk[h].live) {
 			Block &b = blk[h];
 			b.owner = 0; b.offered = false;
 			if (pi.poison && b.req && ps_any(off(b.ptr), b.req, 1)) violation("not_unpoisoned", "at the end requested bytes of live block #%d are poisoned", h);
@@ -1036,7 +1068,7 @@ struct SlabEngine : Engine {
 			if (api->get_size(pc, pool, b.ptr) != b.reported) violation("size_changed", "block #%d reported size %zu at allocation and %zu at the end", h, b.reported, api->get_size(pc, pool, b.ptr));
 		}
 		bool sgl = single; single = true; // teardown is sequential: page accounting can be observed again
-		for (int h = 0; h < NH + NBULK; h++) if (blk[h].live) {
+		for (int h = 0; h < slot_hi; h++) if (blk[h].live) {
 			Op dummy; dummy.kind = OP_FREE;
 			cur[0] = Cur();
 			// page bookkeeping for regions mapped in multi-task runs is unknown: only check direction
@@ -1123,6 +1155,7 @@ struct SlabEngine : Engine {
 			for (size_t cand : {c, c / 2 + 1, (size_t)1}) if (cand != n && cand >= 1) { Op x = o; x.a[1] = (int64_t)cand; v.push_back(x); }
 		}
 		if (o.kind == OP_BULK) { if (o.a[2] > 8) { Op x = o; x.a[2] = o.a[2] / 2; v.push_back(x); Op y = o; y.a[2] = o.a[2] - 1; v.push_back(y); } if (o.a[3]) { Op x = o; x.a[3] = 0; v.push_back(x); } }
+		if (o.kind == OP_MASS) { if (o.a[2] > 8) { Op x = o; x.a[2] = o.a[2] / 2; v.push_back(x); Op y = o; y.a[2] = o.a[2] - 1; v.push_back(y); } if (o.a[3]) { Op x = o; x.a[3] = 0; v.push_back(x); } }
 		if (o.kind == OP_CHURN) { if (o.a[2] > 4) { Op x = o; x.a[2] = o.a[2] / 4; v.push_back(x); } if (o.a[3] > 1) { Op x = o; x.a[3] = 1; v.push_back(x); } }
 		if (o.kind == OP_REALLOC_NULL) { Op x = o; x.kind = OP_ALLOC; v.push_back(x); }
 		if (o.kind == OP_DEALLOC || o.kind == OP_REALLOC_ZERO) { Op x = o; x.kind = OP_FREE; v.push_back(x); }
